@@ -236,6 +236,16 @@ class Facts(Walker):
                 return self.vn(args[0], st)
             if last == "mod" and len(args) == 2:
                 return "Mod(%s,%s)" % (self.vn(args[0], st), self.vn(args[1], st))      # np.mod(a, b) is a % b
+            # indices of the true entries of a mask, one canonical number: np.where(m) == np.nonzero(m) == np.nonzero(np.where(m, 1, 0)); np.flatnonzero(m) == np.where(m)[0]
+            if last in ("where", "nonzero", "flatnonzero") and len(args) == 1 and not node.keywords:
+                m_ = args[0]
+                while isinstance(m_, ast.Call) and (self.np_name(m_.func) or "").split(".")[-1] == "where" and len(m_.args) == 3 \
+                        and isinstance(m_.args[1], ast.Constant) and m_.args[1].value in (1, True) and isinstance(m_.args[2], ast.Constant) and m_.args[2].value in (0, False):
+                    m_ = m_.args[0]
+                inner_ = self.vn(m_, st)
+                while inner_.startswith("np.where(") and inner_.endswith(",c:1,c:0)"):        # the 0/1 image of a mask held in a local
+                    inner_ = inner_[len("np.where("):-len(",c:1,c:0)")]
+                return "np.where(%s)%s" % (inner_, "[c:0]" if last == "flatnonzero" else "")
             return "np.%s(%s)" % (npn, ",".join(self.vn(a, st) for a in args if not isinstance(a, ast.Starred)))
         if isinstance(f, ast.Attribute):
             base = self.vn(f.value, st)
@@ -889,6 +899,16 @@ def _where_zero_size(n):
             t = c.args[0]
             if isinstance(t, ast.Compare) and isinstance(t.ops[0], ast.Eq) and _is_zero(t.comparators[0]):
                 return t.left
+    # np.count_nonzero(X == 0) / np.sum(X == 0) / (X == 0).sum(): the number of zeros
+    if isinstance(n, ast.Call):
+        nm = ast.unparse(n.func).split(".")[-1]
+        t = None
+        if nm in ("count_nonzero", "sum") and n.args and ast.unparse(n.func).startswith(("np.", "numpy.")):
+            t = n.args[0]
+        elif nm in ("sum",) and isinstance(n.func, ast.Attribute) and not n.args:
+            t = n.func.value
+        if isinstance(t, ast.Compare) and len(t.ops) == 1 and isinstance(t.ops[0], ast.Eq) and _is_zero(t.comparators[0]):
+            return t.left
     return None
 
 
